@@ -519,6 +519,9 @@ static void diff_mem(void)
                 }
 }
 
+static void flush_merged(long ret);
+static long last_svc_ret;
+
 static void end_call(long ret, int is_svc)
 {
         if (--in_call > 0) {
@@ -537,7 +540,7 @@ static void end_call(long ret, int is_svc)
                         if (ch != 0) { ev_begin(); ev_printf("{\"k\":\"half\",\"which\":\"ev\"}"); }
                 }
         }
-        if (compact && is_svc) { merged_n++; return; }
+        if (compact && is_svc) { merged_n++; last_svc_ret = ret; if (merged_n >= 48) flush_merged(ret); return; }   /* bounded: TLC's recursion depth per record */
         fprintf(out, "{\"e\":\"api\",\"f\":\"%s\",\"a\":[%s],\"ev\":[%s],\"ret\":%ld", call_name, call_args, evlen ? evbuf : "", ret);
         if (use_mutex) {
                 int sau = call_unlock_seen ? snap_same(snap_unlock) : 1;
@@ -554,8 +557,6 @@ static void flush_merged(long ret)
         fprintf(out, "{\"e\":\"api\",\"f\":\"svcs\",\"a\":[%d],\"ev\":[%s],\"ret\":%ld}\n", merged_n, evlen ? evbuf : "", ret);
         merged_n = 0; evlen = 0; ev_count = 0;
 }
-
-static long last_svc_ret;
 
 static long call_service(void)
 {
